@@ -3712,7 +3712,7 @@ class mulgrid(object):
         names in the original geometry to lists of corresponding
         column names in the reduced geometry.
         """
-        if columns == []: columns = self.columnlist
+        if columns == []: columns = list(self.columnlist) # (copy: the list is changed below)
         else:
             if isinstance(columns[0], str): columns = [self.column[col] for col in columns]
         colmap = dict([(col.name, self.decompose_column(col.name, chars, spaces))
